@@ -75,12 +75,12 @@ fn native_sklb_parse() {
     println!("NATIVE native_sklb_parse cases={cases}");
 }
 
-//@unit props=C18 label=B tier=quick native=1 fn=skeleton::Skeleton::from_existing,havok::HavokBinaryTagFileReader::read bound="by execution: the 5-bone skeleton of native_sklb_parse (container version 1300): every truncation, under a 10 s deadline per case. Byte corruptions are NOT swept: a damaged packed array length (e.g. byte 362 changed from 0x02 to 0x7f = length -63) makes the vendored Havok reader loop and allocate without end, which can only be observed by aborting the test process (recorded as a known finding, DESIGN.md 9.8)"
+//@unit props=C18 label=B tier=quick native=1 fn=skeleton::Skeleton::from_existing,havok::HavokBinaryTagFileReader::read bound="by execution: the 5-bone skeleton of native_sklb_parse (container version 1300): every truncation, under a 30 s deadline per case. Byte corruptions are NOT swept: a damaged packed array length (e.g. byte 362 changed from 0x02 to 0x7f = length -63) makes the vendored Havok reader loop and allocate without end, which can only be observed by aborting the test process (recorded as a known finding, DESIGN.md 9.8)"
 //@desc truncated skeletons yield None or a value, never a panic (the vendored Havok tag-file reader reports every format violation by panicking: the panic sites reached here are listed as known findings)
 #[test]
 fn native_sklb_truncated_nopanic() {
     let v = nsk_sklb(&nsk_bones(5, 1), false);
-    let f = |b: &[u8]| { let owned = b.to_vec(); native_with_deadline(10, "Skeleton::from_existing on a truncated skeleton", move || { let _ = Skeleton::from_existing(&owned); }); };
+    let f = |b: &[u8]| { let owned = b.to_vec(); native_with_deadline(30, "Skeleton::from_existing on a truncated skeleton", move || { let _ = Skeleton::from_existing(&owned); }); };
     let mut s = NativeSites::new();
     for t in 0..v.len() { s.run(&f, &v[..t], &format!("truncation to {t} bytes")); }
     s.finish("native_sklb_truncated_nopanic");
